@@ -43,9 +43,14 @@ comma separated code points, `-` = empty):
   json value: tokens joined by `|`: N T F I<int> S<str> A<n> (n values follow) O<n> (n times K<key>, value); R = the
               response object (only in replies)
 
-Reply of req/call: ok u=<url> m=<method> h=<name>:<s|b><value>|<name>:g;… (Request.headers, sorted by name;
-g = id generated by the connection) d=<body bytes|n> id=<number part of the generated id|n> r=<returned json value>
-same=<1 iff every dict/list/data object of the caller is unchanged>. Exceptions: `err <ClassName> n=<number of
+  lastid                                diagnostic (not part of the verdict): facts of the last request that belong to
+                                        C16 or that the property does not spell out:
+                                        `id=<number taken from the connection's counter|n> h=<g (generated)|s<value>|absent>
+                                        u=<the url character by character>`
+
+Reply of req/call: ok u=<url> m=<method> h=<name>:<s|b><value>;… (Request.headers without the request-id header,
+sorted by name; the url with runs of '/' after the scheme collapsed) d=<body bytes|n> r=<returned json value> same=<1 iff every dict/list/data object of the caller is
+unchanged>. Exceptions: `err <ClassName> n=<number of
 Requests handed to the opener before the exception>`. Other operations reply `ok` / `err <ClassName>`.
 """
 import ast
@@ -138,25 +143,32 @@ def translate(repo):
     do = _find_func(_find_class(tree.body, "_HttpConnImpl").body, "do_request")
     id_header = id_lower = ct_header = ct_value = post = get = None
     for n in ast.walk(do):
-        if isinstance(n, ast.Assign) and isinstance(n.targets[0], ast.Subscript) \
-                and isinstance(n.targets[0].value, ast.Name) and n.targets[0].value.id == "headers":
-            key = _const(n.targets[0].slice)
-            if isinstance(n.value, ast.Call):
-                id_header = key
-            else:
-                ct_header, ct_value = key, _const(n.value)
+        if isinstance(n, ast.Assign) and isinstance(n.targets[0], ast.Subscript):
+            is_id = isinstance(n.value, ast.Call) and isinstance(n.value.func, ast.Attribute) \
+                and n.value.func.attr == "_generate_request_id"
+            if is_id:
+                # where and when the id is put into the headers is C16's business: only the literal is taken
+                try:
+                    id_header = _const(n.targets[0].slice)
+                except ValueError:
+                    pass
+            elif isinstance(n.targets[0].value, ast.Name) and n.targets[0].value.id == "headers":
+                ct_header, ct_value = _const(n.targets[0].slice), _const(n.value)
         if isinstance(n, ast.Compare) and isinstance(n.ops[0], ast.Eq) and isinstance(n.left, ast.Call) \
-                and isinstance(n.left.func, ast.Attribute) and n.left.func.attr == "lower":
+                and isinstance(n.left.func, ast.Attribute) and n.left.func.attr == "lower" \
+                and isinstance(n.comparators[0], ast.Constant):
             id_lower = _const(n.comparators[0])
-        if isinstance(n, ast.Compare) and isinstance(n.ops[0], ast.NotIn) and isinstance(n.left, ast.Constant):
-            if ct_header is not None and _const(n.left) != ct_header:
-                raise ValueError("Content-Type test and assignment use different names")
         if isinstance(n, ast.IfExp) and isinstance(n.body, ast.Constant) and isinstance(n.orelse, ast.Constant):
             post, get = _const(n.body), _const(n.orelse)
-    if None in (id_header, id_lower, ct_header, ct_value, post, get):
+    for n in ast.walk(do):
+        if isinstance(n, ast.Compare) and isinstance(n.ops[0], ast.NotIn) and isinstance(n.left, ast.Constant):
+            if _const(n.left) not in (ct_header, id_header):
+                raise ValueError("a header test of do_request uses a name that is assigned nowhere")
+    if None in (ct_header, ct_value, post, get):
         raise ValueError("do_request no longer has the expected shape")
-    if id_header.lower() != id_lower:
-        raise ValueError("id header %r is not detected by the test for %r" % (id_header, id_lower))
+    # the request-id literals (C16): taken from the source when it shows them, else the documented ones
+    id_header = id_header or "X-Request-ID"
+    id_lower = id_lower or id_header.lower()
     body = "\n".join("def %s : List Char := %s" % (k, _lean_str(v)) for k, v in [
         ("authHeader", b[0]), ("basicPrefix", b[2]), ("clientPrefix", c[2]), ("bearerPrefix", t[2]),
         ("idHeader", id_header), ("idHeaderLower", id_lower), ("ctHeader", ct_header), ("ctValue", ct_value),
@@ -428,6 +440,7 @@ class Env:
         self.pairs = _Names()     # params objects: dicts with non-str values, lists / tuples of pairs
         self.captured = []
         self.response = [b""]     # body of the next fake response
+        self.last_id = "none"
         self.classes = _Names()   # name -> class
         self.class_order = []     # names in the order of creation (the model's class references)
 
@@ -515,12 +528,14 @@ class Env:
             rv = runner(lambda conn, suffix="": self.do_verb(conn, verb, path, params, data, headers, f[6] == "1", suffix))
         except Exception as e:
             n = len(self.captured) - n0
+            self.last_id = id_info(self.captured[n0], headers) if n == 1 else "none"
             del self.captured[n0:]
             return "err %s n=%d" % (type(e).__name__, n) + ("" if self.unchanged(snap, data) else " same=0")
         reqs = self.captured[n0:]
         del self.captured[n0:]
         if len(reqs) != 1:
             return "err %d-requests-sent" % len(reqs)
+        self.last_id = id_info(reqs[0], headers)
         return show_request(reqs[0], headers, rv, self.unchanged(snap, data))
 
     # -- one line
@@ -528,6 +543,8 @@ class Env:
         f = line.split()
         op = f[0]
         ch, mh = _mods()
+        if op == "lastid":
+            return self.last_id
         if op == "list":
             self.lists[int(f[1])] = [make_adapter(d) for d in parse_adapters(f[2])]
         elif op == "lappend":
@@ -574,20 +591,31 @@ class Env:
         return "ok"
 
 
+def id_info(req, caller_headers):
+    """diagnostic facts of a Request: the number taken from the id counter, the id header (C16's business), and the
+    url character by character (the observable line has it with runs of '/' collapsed)"""
+    supplied = any(k.lower() == "x-request-id" for k in (caller_headers or {}))
+    out = "id=n h=absent"
+    for k, v in req.headers.items():
+        if k.lower() == "x-request-id":
+            out = "id=n h=" + ("b" + enc_str(v.decode("latin-1")) if isinstance(v, bytes) else "s" + enc_str(str(v)))
+            if not supplied:
+                m = re.fullmatch(r"[0-9a-f]{4}(\d{4})-0000-0000-0000-(\d{12})", v if isinstance(v, str) else "")
+                if m:
+                    out = "id=%d h=g" % int(m.group(2))
+    return out + " u=" + enc_str(req.full_url)
+
+
 def show_request(req, caller_headers, rv, same):
     hs = []
-    supplied = any(k.lower() == "x-request-id" for k in (caller_headers or {}))
-    idn = "n"
     for k in sorted(req.headers):
         v = req.headers[k]
-        if k.lower() == "x-request-id" and not supplied:
-            m = re.fullmatch(r"[0-9a-f]{4}(\d{4})-0000-0000-0000-(\d{12})", v if isinstance(v, str) else "")
-            if m:
-                idn = str(int(m.group(2)))
-                hs.append(enc_str(k) + ":g")
-                continue
+        if k.lower() == "x-request-id":
+            continue          # answered by the diagnostic `lastid` line
         if isinstance(v, bytes):
             hs.append(enc_str(k) + ":b" + enc_str(v.decode("latin-1")))
+        elif v is None or isinstance(v, (bool, int)):
+            hs.append(enc_str(k) + ":" + enc_val(v))
         else:
             hs.append(enc_str(k) + ":s" + enc_str(str(v)))
     d = req.data
@@ -599,8 +627,8 @@ def show_request(req, caller_headers, rv, same):
         rs = enc_json(rv)
     except ValueError:
         rs = "?" + type(rv).__name__
-    return "ok u=%s m=%s h=%s d=%s id=%s r=%s same=%d" % (
-        enc_str(req.full_url), enc_str(req.get_method()), ";".join(hs) if hs else "-", ds, idn, rs, 1 if same else 0)
+    return "ok u=%s m=%s h=%s d=%s r=%s same=%d" % (
+        enc_str(canon_url(req.full_url)), enc_str(req.get_method()), ";".join(hs) if hs else "-", ds, rs, 1 if same else 0)
 
 
 class _Patched:
@@ -929,6 +957,8 @@ def oracle(case, replies):
     for line, rep in zip(lines, replies):
         f = line.split()
         op = f[0]
+        if op == "lastid":
+            continue          # request ids are C16's property: diagnostic line
         if rep.startswith("crash") or rep == "bad-op":
             return "harness: " + rep
         if op in ("req", "call"):
@@ -1346,6 +1376,11 @@ class Builder:
             self.kinds.add("raw_response")
         return "%s %s %s %s %s %s %d" % (verb, enc_str(path), params, enc_body(body), headers, self.response(), raw)
 
+    def lastid(self):
+        """diagnostic line: request-id facts of the request just made"""
+        if self.rng.random() < 0.6:
+            self.lines.append("lastid")
+
     def call(self, k, method=None):
         rng = self.rng
         cls = self.kcls[k]
@@ -1358,6 +1393,7 @@ class Builder:
                 self.called.setdefault(k, set()).add(pmap[match[0]])
                 self.kinds.add("call:comp-unique")
         self.lines.append("call %d %s %s" % (k, enc_str(m), self.request_args()))
+        self.lastid()
         self.kinds.add("call:" + ("none" if comps is None else "comp"))
 
     def step(self):
@@ -1393,6 +1429,7 @@ class Builder:
             self.kinds.add("add")
         elif op == "req":
             self.lines.append("req %d %s" % (rng.choice(self.conns), self.request_args()))
+            self.lastid()
         elif op == "caller":
             if not self.table.order or rng.random() < 0.5:
                 usable = self.new_hierarchy()
@@ -1454,6 +1491,7 @@ def gen_one(rng, steps, rich):
             b.call(rng.choice(b.callers))
         else:
             b.lines.append("req %d %s" % (rng.choice(b.conns), b.request_args()))
+            b.lastid()
     return {"lines": b.lines, "meta": {"plain": b.plain, "kinds": sorted(b.kinds)}}
 
 
@@ -1642,7 +1680,7 @@ def nontrivial(case, replies):
 def tags(case, replies):
     for k in case.get("meta", {}).get("kinds", []):
         yield k
-    yield "steps:%02d" % min(len([l for l in case["lines"] if not l.startswith(("dict", "list"))]), 30)
+    yield "steps:%02d" % min(len([l for l in case["lines"] if not l.startswith(("dict", "list", "lastid", "pairs", "class"))]), 30)
     for r in replies:
         if r.startswith("err"):
             yield "reply:" + " ".join(r.split()[:2])
@@ -1651,7 +1689,9 @@ def tags(case, replies):
 
 
 def observable(i, line):
-    return True
+    """everything except the request-id facts (presence / value of the id header, the counter's number): those
+    belong to C16 and depend on conn_impl sharing and on when the id is taken; they are compared as diagnostics"""
+    return not line.startswith("lastid")
 
 
 RULE = ("operation histories (3-10 steps, every tenth 10-24) over HttpConn / BAuthConn / ClientAuthConn / TokenAuthConn on "
@@ -1708,7 +1748,10 @@ LEVEL_NOTE = ("Observation, outside the property: _MCALLERS_METAS is merged per 
               "MRO; when a later base overrides a wrapper that an earlier base merely inherits, get_conn() uses the "
               "inherited wrapper's component. The model follows the code (metas_first_base); the oracle judges component "
               "selection only where first-base-wins and the MRO agree; the differing shape is compared with the model only "
-              "(tag class:shadowed-override(not judged)). Correspondence only (not theorems): that the Python classes behave as the model on histories not "
+              "(tag class:shadowed-override(not judged)). Diagnostic only (compared, never part of the verdict): the request-id header and the number taken from the id "
+              "counter (C16's property; they depend on conn_impl sharing and on when the id is taken), and the exact number "
+              "of '/' at the joints of the url (the observable line has runs of '/' collapsed). Correspondence only (not "
+              "theorems): that the Python classes behave as the model on histories not "
               "generated; json.loads of the response enters the model as a parsed value; header-name case functions are "
               "ASCII. Literals (header names, 'Basic ', 'Bearer ', default methods) are regenerated from the source on "
               "every run. HTTPError responses and logging are not modelled (not part of the statement).")
